@@ -68,8 +68,8 @@ func checkC01(w *World, r *Report) {
 	}
 	r.Floor("D-7", 2, "ledger isolation")
 	r.Floor("D-1", 1, "API calls (positive control + exception)")
-	r.Floor("D-2", 6, "map ranges + iterator who-may-call")
-	r.Floor("D-3", 4, "comparators")
+	r.Floor("D-2", 4, "map ranges + iterator who-may-call")
+	r.Floor("D-3", 3, "comparators")
 	r.Floor("D-4", 4, "serial execution")
 	r.Floor("D-5", 7, "encoders")
 	r.Floor("D-6", 8, "write-back sites")
